@@ -45,6 +45,13 @@ def pool_context():
             out.append(('eval', 'y = (x = %s); y = %s; y' % (a, b), []))
             for op in ASSIGN[1:]:
                 out.append(('eval', 'x = %s; x %s %s; x' % (a, op, b), []))
+    # left operands of assignments that are not bare identifiers, operands with side effects or failures
+    lhs = ['x', '(x)', '(1 / 0)', '(a = 1; "v")', '"s"', '1', '(y = 2)', 'x + 1', 'missing']
+    rhs = ['1', '(z = 5)', '(1 / 0)', 'x', 'missing', '(y = 7; y)']
+    for l in lhs:
+        for r in rhs:
+            for op in ASSIGN:
+                out.append(('eval', '%s %s %s' % (l, op, r), ['x=int:3']))
     out += [('eval', 'x = 1; y = x; x = 2; (x, y)', []), ('eval', 'a += 1', []), ('eval', 'a = 1; a += b', []), ('eval', 'x = 1; x = x + (x = 5)', [])]
     return out
 
@@ -58,7 +65,26 @@ def pool_eval():
             for op in ['+', '&&', '||', ',', ';', '==']:
                 out.append(('eval', '%s %s %s' % (x, op, y), ['a=int:10']))
                 out.append(('evalimm', '%s %s %s' % (x, op, y), ['a=int:10']))
+    short = ['true', 'false', '1', '"text"', 'missing', '1 / 0', 'z = 1', 'zero != 0', 'a == 10', '()']
+    for x in short:
+        for y in short:
+            for op in ['&&', '||']:
+                out.append(('evalimm', '%s %s %s' % (x, op, y), ['a=int:10', 'zero=int:0']))
+                out.append(('eval', '%s %s %s' % (x, op, y), ['a=int:10', 'zero=int:0']))
     return out
+
+
+def pool_interface():
+    exprs = ['1', '1.5', '"s"', 'true', '()', '(1, 2)', 'a', 'f', 's', 'a = 3', 'f = 3', 'f = 2.5', 'a = 1.5; a = 3', 'f = 1', 's = 1', 'a = "x"', 'b = true; b = 1', 't = (1, 2); t = 1',
+             'missing', '1 / 0', '1 +', 'a + f', 'a + 1', 'f * 2', 'len(s)', 'a; f', 'a, f', '9007199254740993', 'x = 1.5; x = 3', 'x = 3; x = 1.5', '-a', '!b', 'if(true, 1, 2.5)', 'typeof(a)']
+    binds = ['a=int:7', 'f=float:4612811918334230528', 's=str:6162', 'b=bool:1']
+    return [('typed', e, binds) for e in exprs] + [('typed', e, []) for e in exprs]
+
+
+def pool_iter():
+    exprs = ['a', 'a + b', 'f(a)', 'f()', 'f() + b', 'now() + offset', 'a = 1;; b = a + c', 'f((), x) * y', '(); a', '(), a', ';;a', 'a;;', 'a = b', 'a += b; c', 'f g h', 'f(g(h), i) + j',
+             '(a, (b, c)), d', '((a))', '-a ^ -b', 'a = f(b = c)', '1; 2; x', 'f(();())', 'min(a, ()) + z', '((),(),w)', 'p(q();r)', '""; k', 'true && b || c']
+    return [('iter', e, []) for e in exprs]
 
 
 def pool_tree():
@@ -79,7 +105,7 @@ def pool_tree():
 
 
 def pool_lexer():
-    words = ['1', '25', '0x1F', '0xg', '0xe', '0x1e', '0xE5', '0xdeadbeef', '0x1e-3', 'π', 'aé', 'maß', '1.5', '.5', '5.', '1e3', '1E3', '25E-1', '1e-3', '5e-3-2e-3', '1e+3', '1e+', 'e+3', 'true', 'false', 'True', 'abc', 'a_1', '1a', 'ä',
+    words = ['"\\\u0122"', '"\\\u015c"', '"\\\u0422"', '"\\a"', '"\\n"', '"\\\u4e22"', '"\u0122\\"', '1\u000b+\u000b2', '1\u000c+\u000c2', '1\r+\r2', '1\u0085+\u00a02', '1\u2028+\u30002', 'a\u000bb', '1\u200b+2', '1', '25', '0x1F', '0xg', '0xe', '0x1e', '0xE5', '0xdeadbeef', '0x1e-3', 'π', 'aé', 'maß', '1.5', '.5', '5.', '1e3', '1E3', '25E-1', '1e-3', '5e-3-2e-3', '1e+3', '1e+', 'e+3', 'true', 'false', 'True', 'abc', 'a_1', '1a', 'ä',
              '"x"', '"a\\\\b"', '"a\\"b"', '"a\\nb"', '"unterminated', '"/**/"', '9223372036854775807', '9223372036854775808', '0x7fffffffffffffff', '0x8000000000000000',
              '1e400', '0x', '1_000']
     seps = ['', ' ', '\t', '\n', ' ', ' ', '/**/', '/* c */', '// c\n', '/*', '/*/', '/**//**/', ' /**/ ']
@@ -119,6 +145,8 @@ def pool_functions():
 POOLS = [
     (('operator::eval', 'operator::eval_mut', 'value::', 'error::', 'vs::'), pool_operators),
     (('context::',), pool_context),
+    (('interface::',), pool_interface),
+    (('tree::iter', 'iter::'), pool_iter),
     (('tree::eval', 'interface::', 'tree::Node'), pool_eval),
     (('tree::insert', 'tree::collapse', 'tree::tokens_to', 'tree::has_', 'operator::precedence', 'operator::is_', 'operator::max_', 'token::is_'), pool_tree),
     (('token::',), pool_lexer),
